@@ -131,8 +131,10 @@ class TorchDistributedCommunicator:
                 operations in megabytes (default: 25).
         """
         self._bucket_cap_mb = bucket_cap_mb
+        # Keyed by the process group handle. Note: distinct groups can have
+        # the same size so the size (or range(size)) is not a valid key.
         self._allreduce_buckets: defaultdict[
-            frozenset[int],
+            dist.ProcessGroup | None,
             AllreduceTensorBucket | None,
         ] = defaultdict(lambda: None)
 
@@ -153,7 +155,7 @@ class TorchDistributedCommunicator:
         Returns:
             Current AllreduceTensorBucket if one has been created else None.
         """
-        return self._allreduce_buckets[self.group_ranks(group)]
+        return self._allreduce_buckets[group]
 
     def _new_allreduce_bucket(
         self,
@@ -180,7 +182,7 @@ class TorchDistributedCommunicator:
                 'communicated.',
             )
         bucket = AllreduceTensorBucket(group)
-        self._allreduce_buckets[self.group_ranks(group)] = bucket
+        self._allreduce_buckets[group] = bucket
         return bucket
 
     def allreduce(
